@@ -180,7 +180,7 @@ class C13(Check):
         "sync / async x request kinds (ok, notification, raises, does not bind / validate, unknown, rejected, batch, non-JSON): after gc no "
         "context object and no view instance is alive; (b2) growth: three passes of N in {100, 200, 1000} requests whose client-supplied text never repeats (unknown and dotted method names, argument values, "
         "string ids, unknown parameter names, invalid values, versions, batches, non-JSON) - the number of gc-tracked objects alive after the third pass exceeds the number after the second by less than N/2; (c) 2..16 threads dispatching rotated corpora through one shared dispatcher with "
-        "sys.setswitchinterval(1e-6): every response equals the single-threaded response; each round uses a dispatcher over freshly created function objects, so first-call work of the library happens under contention. non-trivial = history with >= 1 failing and >= 1 "
+        "sys.setswitchinterval(1e-6): every response equals the single-threaded response; each round uses a dispatcher over freshly created function objects, so first-call work of the library happens under contention; optionally behind response-rewriting middlewares (a bypassed chain changes the answer). non-trivial = history with >= 1 failing and >= 1 "
         "batch request before the probe / retention with N >= 10 / thread run with >= 2 threads; distinct = distinct spec."
     )
     assumptions = [
@@ -210,7 +210,7 @@ class C13(Check):
             reg = stdreg.std_registry(kind)
             doc = docs.document(reg, kinds=['single'] * 4 + ['batch'] * 4 + ['raw'])
             return st.builds(lambda n, c: {'kind': 'threads', 'dispatcher': kind, 'threads': n, 'corpus': c, 'rounds': 3},
-                             st.sampled_from([2, 4, 8, 16]), st.lists(doc, min_size=3, max_size=8)).map(lambda s: {**s, 'rounds': 6})
+                             st.sampled_from([2, 4, 8, 16]), st.lists(doc, min_size=3, max_size=8)).map(lambda s: {**s, 'rounds': 6, 'middlewares': s['threads'] in (4, 16)})
 
         retention = st.builds(
             lambda d, v, f, n, r: {'kind': 'retention', 'dispatcher': d, 'validator': v, 'flavour': f, 'n': n, 'requests': r},
@@ -277,6 +277,11 @@ class C13(Check):
             {'kind': 'vhistory', 'dispatcher': 'sync', 'coerce': False, 'history': [['pick.float', []], ['pick.bool', []]], 'probe': ['pick.int', []]},
             {'kind': 'threads', 'dispatcher': 'sync', 'threads': 4, 'rounds': 12, 'corpus': 'std'},
             {'kind': 'threads', 'dispatcher': 'sync', 'threads': 16, 'rounds': 12, 'corpus': 'std'},
+            {'kind': 'threads', 'dispatcher': 'sync', 'threads': 8, 'rounds': 40, 'corpus': 'std', 'middlewares': True},
+            # many short rounds: what matters is the very first dispatch through each fresh dispatcher
+            {'kind': 'threads', 'dispatcher': 'sync', 'threads': 8, 'rounds': 400, 'corpus': 'std', 'middlewares': True, 'texts_per_round': 2},
+            {'kind': 'threads', 'dispatcher': 'sync', 'threads': 16, 'rounds': 200, 'corpus': 'std', 'middlewares': False, 'texts_per_round': 2},
+            {'kind': 'threads', 'dispatcher': 'async', 'threads': 8, 'rounds': 10, 'corpus': 'std', 'middlewares': True},
             {'kind': 'threads', 'dispatcher': 'async', 'threads': 2, 'rounds': 4, 'corpus': 'std'},
         ]
 
@@ -467,7 +472,13 @@ class C13(Check):
             texts = [docs.render(ts) for ts in spec['corpus']]
         sentinel = object()
         hm.RT.reset(sentinel, behaviours, error_builder=sh.build_error)
-        single = hm.build_dispatcher(kind, registry)
+        # optional middlewares whose effect is visible in every successful answer (a bypassed chain changes the response)
+        from pbt import stack
+        def mws():
+            if not spec.get('middlewares'):
+                return {}
+            return {'middlewares': stack.build_middlewares([{'kind': 'rewrite-response'}, {'kind': 'pass'}, {'kind': 'rewrite-response'}], stack.Events(), kind == 'async')}
+        single = hm.build_dispatcher(kind, registry, **mws())
 
         def serve(d, text, own_loop=None):
             if kind == 'sync':
@@ -483,7 +494,7 @@ class C13(Check):
         # inspection, model building, caches) then happens while the other threads are calling the same function
         # (one dispatcher with new function objects per round; all threads enter a round together)
         nthreads, rounds = spec['threads'], spec['rounds']
-        shared_by_round = [hm.build_dispatcher(kind, [{**m, 'ephemeral': True} for m in registry]) for _ in range(rounds)]
+        shared_by_round = [hm.build_dispatcher(kind, [{**m, 'ephemeral': True} for m in registry], **mws()) for _ in range(rounds)]
         results: List[Any] = [None] * nthreads
         errors: List[Any] = []
         barrier = threading.Barrier(nthreads)
@@ -495,7 +506,7 @@ class C13(Check):
                 for r in range(rounds):
                     barrier.wait(timeout=30)
                     shared = shared_by_round[r]
-                    for k in range(len(texts)):
+                    for k in range(min(len(texts), spec.get('texts_per_round', len(texts)))):
                         # even rounds: every thread walks the texts in the same order (they meet on the same function's first call);
                         # odd rounds: each thread starts elsewhere
                         j = (k + r + (idx if r % 2 else 0)) % len(texts)
